@@ -77,6 +77,7 @@ def Emb : Spec.Expr → Node → Prop
   | .field a, n => ∃ p x, n = .unary (S "field") p x ∧ Emb a x
   | .call f as, n => ∃ p p' wr ops, n = .callFn (.s f) p (.loadList (S "<load_list>") p' ops.reverse) true false wr .none ∧ EmbL as ops
   | .list as, n => ∃ p p' ops, n = .toList p (.loadList (S "<load_list>") p' ops.reverse) ∧ EmbL as ops
+  | .plist as, n => ∃ p p' ops, n = .toDict p (.loadList (S "<load_list>") p' ops.reverse) ∧ EmbL as ops
   | .key v, n => ∃ p, n = .keyAcc p v
   | .movie v, n => (∃ p, n = .leaf .propName (.s v) p) ∨
       (∃ p q o, n = .propAcc p (.leaf .localVar (.s o) q) v false ∧ Lscr.startsWith o (S "_") = true)
@@ -85,7 +86,8 @@ def Emb : Spec.Expr → Node → Prop
   | .the .special k [], n => ∃ p, n = .leaf .propName (.s (Spec.nameOrUnknown Spec.tblSpecial k)) p
   | .the t k [e], n => (∃ p q cls tb w nm, theTbl t = some (cls, tb, w) ∧ idxName e = some nm ∧
       n = .propAcc p (.leaf cls nm q) (Spec.nameOrUnknown tb k) false) ∨
-      (∃ p x op r ty, strThe t k = some (op, r) ∧ chunkTy r = some ty ∧ n = .unaryStr op p (some ty) x ∧ Emb e x)
+      (∃ p x op r ty, strThe t k = some (op, r) ∧ chunkTy r = some ty ∧ n = .unaryStr op p (some ty) x ∧ Emb e x) ∨
+      (t = .field ∧ ∃ p q x, n = .propAcc p (.unary (S "field") q x) (Spec.nameOrUnknown Spec.tblCast k) false ∧ Emb e x)
   | .oprop v o, n => ∃ p x, n = .propAcc p x v true ∧ Emb o x
   | .chunk k a b d, n => ∃ p x y z, n = .strOp k.tag.toList p x y z ∧ Emb a x ∧
       ((isZero b = true ∧ y = .none) ∨ (isZero b = false ∧ Emb b y)) ∧ Emb d z
@@ -112,6 +114,7 @@ def EmbH (hs : List Spec.Name) : Spec.Expr → Node → Prop
   | .field a, n => ∃ p x, n = .unary (S "field") p x ∧ EmbH hs a x
   | .call f as, n => ∃ p p' ops, n = .callFn (.s f) p (.loadList (S "<load_list>") p' ops.reverse) true false (hs.contains f) .none ∧ EmbLH hs as ops
   | .list as, n => ∃ p p' ops, n = .toList p (.loadList (S "<load_list>") p' ops.reverse) ∧ EmbLH hs as ops
+  | .plist as, n => ∃ p p' ops, n = .toDict p (.loadList (S "<load_list>") p' ops.reverse) ∧ EmbLH hs as ops
   | .key v, n => ∃ p, n = .keyAcc p v
   | .movie v, n => (∃ p, n = .leaf .propName (.s v) p) ∨
       (∃ p q o, n = .propAcc p (.leaf .localVar (.s o) q) v false ∧ Lscr.startsWith o (S "_") = true)
@@ -120,7 +123,8 @@ def EmbH (hs : List Spec.Name) : Spec.Expr → Node → Prop
   | .the .special k [], n => ∃ p, n = .leaf .propName (.s (Spec.nameOrUnknown Spec.tblSpecial k)) p
   | .the t k [e], n => (∃ p q cls tb w nm, theTbl t = some (cls, tb, w) ∧ idxName e = some nm ∧
       n = .propAcc p (.leaf cls nm q) (Spec.nameOrUnknown tb k) false) ∨
-      (∃ p x op r ty, strThe t k = some (op, r) ∧ chunkTy r = some ty ∧ n = .unaryStr op p (some ty) x ∧ EmbH hs e x)
+      (∃ p x op r ty, strThe t k = some (op, r) ∧ chunkTy r = some ty ∧ n = .unaryStr op p (some ty) x ∧ EmbH hs e x) ∨
+      (t = .field ∧ ∃ p q x, n = .propAcc p (.unary (S "field") q x) (Spec.nameOrUnknown Spec.tblCast k) false ∧ EmbH hs e x)
   | .oprop v o, n => ∃ p x, n = .propAcc p x v true ∧ EmbH hs o x
   | .chunk k a b d, n => ∃ p x y z, n = .strOp k.tag.toList p x y z ∧ EmbH hs a x ∧
       ((isZero b = true ∧ y = .none) ∨ (isZero b = false ∧ EmbH hs b y)) ∧ EmbH hs d z
@@ -142,6 +146,7 @@ theorem emb_symName' (e : Spec.Expr) (n : Node) (h : Emb e n) (hs : ∀ v, e ≠
   | field a => obtain ⟨p, y, rfl, _⟩ := h; rfl
   | call f as => obtain ⟨p, p', wr, ops, rfl, _⟩ := h; rfl
   | list as => obtain ⟨p, p', ops, rfl, _⟩ := h; rfl
+  | plist as => obtain ⟨p, p', ops, rfl, _⟩ := h; rfl
   | key v => obtain ⟨p, rfl⟩ := h; rfl
   | movie v => rcases h with ⟨p, rfl⟩ | ⟨p, q, o, rfl, _⟩ <;> rfl
   | oprop v o => obtain ⟨p, x, rfl, _⟩ := h; rfl
@@ -153,7 +158,7 @@ theorem emb_symName' (e : Spec.Expr) (n : Node) (h : Emb e n) (hs : ∀ v, e ≠
       | cons z zs => cases t <;> exact absurd h (by simp [Emb])
       | nil =>
         simp only [Emb] at h
-        rcases h with ⟨p, q, cls, tb, w, nm, _, _, rfl⟩ | ⟨p, x, op, r, ty, _, _, rfl, _⟩ <;> rfl
+        rcases h with ⟨p, q, cls, tb, w, nm, _, _, rfl⟩ | ⟨p, x, op, r, ty, _, _, rfl, _⟩ | ⟨_, p, q, x, rfl, _⟩ <;> rfl
     | nil =>
       cases t with
       | sys => simp only [Emb] at h; obtain ⟨p, q, o, rfl, _⟩ := h; rfl
@@ -184,6 +189,7 @@ theorem emb_isNone (e : Spec.Expr) (n : Node) (h : Emb e n) : n.isNone = false :
   | field a => obtain ⟨p, y, rfl, _⟩ := h; rfl
   | call f as => obtain ⟨p, p', wr, ops, rfl, _⟩ := h; rfl
   | list as => obtain ⟨p, p', ops, rfl, _⟩ := h; rfl
+  | plist as => obtain ⟨p, p', ops, rfl, _⟩ := h; rfl
   | key v => obtain ⟨p, rfl⟩ := h; rfl
   | movie v => rcases h with ⟨p, rfl⟩ | ⟨p, q, o, rfl, _⟩ <;> rfl
   | oprop v o => obtain ⟨p, x, rfl, _⟩ := h; rfl
@@ -195,13 +201,83 @@ theorem emb_isNone (e : Spec.Expr) (n : Node) (h : Emb e n) : n.isNone = false :
       | cons z zs => cases t <;> exact absurd h (by simp [Emb])
       | nil =>
         simp only [Emb] at h
-        rcases h with ⟨p, q, cls, tb, w, nm, _, _, rfl⟩ | ⟨p, x, op, r, ty, _, _, rfl, _⟩ <;> rfl
+        rcases h with ⟨p, q, cls, tb, w, nm, _, _, rfl⟩ | ⟨p, x, op, r, ty, _, _, rfl, _⟩ | ⟨_, p, q, x, rfl, _⟩ <;> rfl
     | nil =>
       cases t with
       | sys => simp only [Emb] at h; obtain ⟨p, q, o, rfl, _⟩ := h; rfl
       | special => simp only [Emb] at h; obtain ⟨p, rfl⟩ := h; rfl
       | _ => exact absurd h (by simp [Emb])
   | _ => exact absurd h (by simp [Emb])
+
+/-- the image of an expression is a constant node only for the two literal forms (no fragment hypothesis) -/
+theorem emb_const_lit (e : Spec.Expr) (n : Node) (h : Emb e n) (hc : n.cls = .leaf .const) : (∃ k, e = .int k) ∨ (∃ s, e = .str s) := by
+  cases e with
+  | int k => exact Or.inl ⟨k, rfl⟩
+  | str s => exact Or.inr ⟨s, rfl⟩
+  | sym s => obtain ⟨p, rfl⟩ := h; simp [Node.cls] at hc
+  | var k v => cases k <;> (obtain ⟨p, rfl⟩ := h; simp [Node.cls] at hc)
+  | un op a => obtain ⟨p, y, rfl, _⟩ := h; simp [Node.cls] at hc
+  | bin op a b => obtain ⟨p, y, z, rfl, _⟩ := h; simp [Node.cls] at hc
+  | field a => obtain ⟨p, y, rfl, _⟩ := h; simp [Node.cls] at hc
+  | call f as => obtain ⟨p, p', wr, ops, rfl, _⟩ := h; simp [Node.cls] at hc
+  | list as => obtain ⟨p, p', ops, rfl, _⟩ := h; simp [Node.cls] at hc
+  | plist as => obtain ⟨p, p', ops, rfl, _⟩ := h; simp [Node.cls] at hc
+  | key v => obtain ⟨p, rfl⟩ := h; simp [Node.cls] at hc
+  | movie v => rcases h with ⟨p, rfl⟩ | ⟨p, q, o, rfl, _⟩ <;> simp [Node.cls] at hc
+  | oprop v o => obtain ⟨p, x, rfl, _⟩ := h; simp [Node.cls] at hc
+  | chunk k a b d => obtain ⟨p, x, y, z, rfl, _⟩ := h; simp [Node.cls] at hc
+  | the t k as =>
+    cases as with
+    | cons y ys =>
+      cases ys with
+      | cons z zs => cases t <;> exact absurd h (by simp [Emb])
+      | nil =>
+        simp only [Emb] at h
+        rcases h with ⟨p, q, cls, tb, w, nm, _, _, rfl⟩ | ⟨p, x, op, r, ty, _, _, rfl, _⟩ | ⟨_, p, q, x, rfl, _⟩ <;> simp [Node.cls] at hc
+    | nil =>
+      cases t with
+      | sys => simp only [Emb] at h; obtain ⟨p, q, o, rfl, _⟩ := h; simp [Node.cls] at hc
+      | special => simp only [Emb] at h; obtain ⟨p, rfl⟩ := h; simp [Node.cls] at hc
+      | _ => exact absurd h (by simp [Emb])
+  | _ => exact absurd h (by simp [Emb])
+
+/-- the image of an expression is a binary-operation node only for a binary operation (no fragment hypothesis) -/
+theorem emb_binary_inv (e : Spec.Expr) (op : Str) (p : Int) (x y : Node) (h : Emb e (.binary op p x y)) :
+    ∃ o a b, e = .bin o a b ∧ op = binName o ∧ Emb a x ∧ Emb b y := by
+  cases e with
+  | bin o a b => obtain ⟨p', x', y', h, ha, hb⟩ := h; cases h; exact ⟨o, a, b, rfl, rfl, ha, hb⟩
+  | int k => obtain ⟨p, h⟩ := h; cases h
+  | str s => obtain ⟨p, h⟩ := h; cases h
+  | sym s => obtain ⟨p, h⟩ := h; cases h
+  | var k v => cases k <;> (obtain ⟨p, h⟩ := h; cases h)
+  | un op a => obtain ⟨p, y, h, _⟩ := h; cases h
+  | field a => obtain ⟨p, y, h, _⟩ := h; cases h
+  | call f as => obtain ⟨p, p', wr, ops, h, _⟩ := h; cases h
+  | list as => obtain ⟨p, p', ops, h, _⟩ := h; cases h
+  | plist as => obtain ⟨p, p', ops, h, _⟩ := h; cases h
+  | key v => obtain ⟨p, h⟩ := h; cases h
+  | movie v => rcases h with ⟨p, h⟩ | ⟨p, q, o, h, _⟩ <;> cases h
+  | oprop v o => obtain ⟨p, x, h, _⟩ := h; cases h
+  | chunk k a b d => obtain ⟨p, x, y, z, h, _⟩ := h; cases h
+  | the t k as =>
+    cases as with
+    | cons y ys =>
+      cases ys with
+      | cons z zs => cases t <;> exact absurd h (by simp [Emb])
+      | nil =>
+        simp only [Emb] at h
+        rcases h with ⟨p, q, cls, tb, w, nm, _, _, h⟩ | ⟨p, x, op, r, ty, _, _, h, _⟩ | ⟨_, p, q, x, h, _⟩ <;> cases h
+    | nil =>
+      cases t with
+      | sys => simp only [Emb] at h; obtain ⟨p, q, o, h, _⟩ := h; cases h
+      | special => simp only [Emb] at h; obtain ⟨p, h⟩ := h; cases h
+      | _ => exact absurd h (by simp [Emb])
+  | _ => exact absurd h (by simp [Emb])
+
+/-- every image of an expression has a `.name` (no fragment hypothesis) -/
+theorem emb_name (e : Spec.Expr) (n : Node) (h : Emb e n) : ∃ nm, n.name = .ok nm := by
+  have := emb_isNone e n h
+  cases n <;> first | (simp [Node.isNone] at this; done) | exact ⟨_, rfl⟩
 
 theorem emb_the_name (t : Spec.Tbl) (k : Nat) (as : List Spec.Expr) (n : Node) (h : Emb (.the t k as) n) : ∃ nm, n.name = .ok nm := by
   cases as with
@@ -214,7 +290,7 @@ theorem emb_the_name (t : Spec.Tbl) (k : Nat) (as : List Spec.Expr) (n : Node) (
     cases xs with
     | nil =>
       simp only [Emb] at h
-      rcases h with ⟨p, q, cls, tb, w, nm, _, _, rfl⟩ | ⟨p, x, op, r, ty, _, _, rfl, _⟩ <;> exact ⟨_, rfl⟩
+      rcases h with ⟨p, q, cls, tb, w, nm, _, _, rfl⟩ | ⟨p, x, op, r, ty, _, _, rfl, _⟩ | ⟨_, p, q, x, rfl, _⟩ <;> exact ⟨_, rfl⟩
     | cons y ys => cases t <;> exact absurd h (by simp [Emb])
 
 /-- every assignment target has a `.name` (no fragment hypothesis; follows every extension of `EmbLv`) -/
@@ -282,12 +358,6 @@ def objOk : Spec.Expr → Bool
   | .var _ v => v != S "me"
   | _ => true
 
-/-- the string of `chunk a to b of d` is not itself a coarser chunk (`char 1 of word 2 of x` is compiled into ONE slice
-    instruction with two slots filled; covered: one slot per instruction) -/
-def notMerged (r : Nat) : Spec.Expr → Bool
-  | .chunk k _ _ _ => decide (k.rank ≤ r)
-  | _ => true
-
 mutual
 /-- expressions of the link theorems -/
 def FragE : Spec.Expr → Bool
@@ -301,15 +371,17 @@ def FragE : Spec.Expr → Bool
   | .field a => FragE a
   | .call f as => idOk f && plainCallName f && !as.isEmpty && !gvClash f as && FragL as   -- F125: a zero-argument call prints as the bare name
   | .list as => FragL as
+  | .plist as => FragL as && as.length % 2 == 0
   | .key v => idOk v
   | .movie v => idOk v
   | .the .sys k [] => Spec.tblSys.any (fun x => x.1 == k)
   | .the .special k [] => decide (k < 6)
   | .the t k [e] =>
     ((match theTbl t with | some (_, tb, _) => tb.any (fun x => x.1 == k) | none => false) && (idxName e).isSome
-      || (match strThe t k with | some (_, r) => (chunkTy r).isSome | none => false)) && FragE e
+      || (match strThe t k with | some (_, r) => (chunkTy r).isSome | none => false)
+      || (decide (t = .field) && Spec.tblCast.any (fun x => x.1 == k))) && FragE e
   | .oprop v o => idOk v && objOk o && FragE o
-  | .chunk k a b d => FragE a && !isZero a && FragE b && FragE d && notMerged k.rank d
+  | .chunk _ a b d => FragE a && !isZero a && FragE b && FragE d
   | _ => false
 def FragL : List Spec.Expr → Bool
   | [] => true
@@ -346,7 +418,7 @@ def FragScript (s : Spec.Script) : Bool :=
   s.factory.isEmpty && s.props.all idOk && s.globals.all idOk && s.handlers.all (FragH s)
 
 /-- a `repeat while` condition whose text does not start with a parenthesis (the decompiler strips the outer parentheses of an
-    infix operation there: other tokens than the reference printer's) -/
+    infix operation there: other tokens than the reference printer's; see `prSW`) -/
 def notInfix : Spec.Expr → Bool
   | .bin o _ _ => !o.isInfix
   | _ => true
@@ -359,7 +431,7 @@ def FragX : Spec.Stmt → Bool
   | .call f as => FragS (.call f as)
   | .exit => true
   | .ifThen c t e => FragE c && FragXs t && FragXs e
-  | .repeatWhile c b => FragE c && notInfix c && FragXs b
+  | .repeatWhile c b => FragE c && FragXs b
   | .repeatWith (.var .loc v) a b _ body => idOk v && FragE a && FragE b && FragXs body
   | _ => false
 def FragXs : List Spec.Stmt → Bool
@@ -399,6 +471,7 @@ def mE : Spec.Expr → Str
   | .field a => S "field " ++ mE a
   | .call f as => f ++ S "(" ++ mArgs as ++ S ")"
   | .list as => S "[" ++ mArgs as ++ S "]"
+  | .plist as => if as.isEmpty then S "[:]" else S "[" ++ mPairs as ++ S "]"
   | .key v => S "the " ++ v
   | .movie v => S "the " ++ v
   | .the .sys k [] => S "the " ++ Spec.nameOrUnknown Spec.tblSys k
@@ -411,7 +484,7 @@ def mE : Spec.Expr → Str
        | some (op, r) =>
          if op = S "last" then S "the last " ++ (chunkTy r).getD [] ++ S " of " ++ mE e
          else S "the number of " ++ (chunkTy r).getD [] ++ S "s of " ++ mE e
-       | none => [])
+       | none => if t = .field then S "the " ++ Spec.nameOrUnknown Spec.tblCast k ++ S " of field " ++ mE e else [])
   | .oprop v o => S "the " ++ v ++ S " of " ++ mE o
   | .chunk k a b d => k.tag.toList ++ S " " ++ mE a ++ (if isZero b then [] else S " to " ++ mE b) ++ S " of " ++ mE d
   | _ => []
@@ -420,6 +493,12 @@ def mArgs : List Spec.Expr → Str
   | [] => []
   | [e] => mE e
   | e :: es => mE e ++ S ", " ++ mArgs es
+/-- `k1: v1, k2: v2` -/
+def mPairs : List Spec.Expr → Str
+  | [] => []
+  | [k] => mE k
+  | [k, v] => mE k ++ S ": " ++ mE v
+  | k :: v :: rest => mE k ++ S ": " ++ mE v ++ S ", " ++ mPairs rest
 end
 
 /-- the condition of `repeat while`: `if cond.startswith('('): cond = cond[1:-1]` -/
@@ -470,13 +549,45 @@ def mText (s : Spec.Script) : Str :=
     ++ (if s.globals.length > 0 then (s.globals.map fun g => S "global " ++ g ++ S "\n").flatten ++ S "\n" else [])
     ++ mHandlers s s.handlers true
 
-/-! ### the tokens of the model's text: the reference printer's tokens in the decompiler's layout (blank lines) -/
+/-! ### the tokens of the model's text: the reference printer's tokens in the decompiler's layout (blank lines), the condition of
+     `repeat while` without the outer parentheses of an infix operation (`repeat.generate_lingo` strips them) -/
+
+/-- the condition of `repeat while` as the decompiler prints it -/
+def wCond : Spec.Expr → List Spec.Tok
+  | .bin op a b => if op.isInfix then Spec.prE a ++ op.tok :: Spec.prE b else Spec.prE (.bin op a b)
+  | e => Spec.prE e
+
+open Drx.Spec in
+mutual
+/-- `Spec.prS` with `wCond` for the condition of `repeat while` (the same tokens for every statement without such a loop) -/
+def prSW : Spec.Stmt → List Spec.Tok
+  | .set lv v => kw "set" :: prE lv ++ .p .eq :: prE v ++ [.nl]
+  | .put m v lv => kw "put" :: prE v ++ kw m.tag :: prE lv ++ [.nl]
+  | .delete t => kw "delete" :: prE t ++ [.nl]
+  | .hilite t => kw "hilite" :: prE t ++ [.nl]
+  | .call f as => prCallStmt f as ++ [.nl]
+  | .mcall o m as => prE o ++ .id m :: prTail as ++ [.nl]
+  | .exit => [kw "exit", .nl]
+  | .tell o b => kw "tell" :: prE o ++ .nl :: prSsW b ++ [kw "end", kw "tell", .nl]
+  | .ifThen c t e =>
+    kw "if" :: prE c ++ kw "then" :: .nl :: prSsW t ++
+      (if e.isEmpty then [] else kw "else" :: .nl :: prSsW e) ++ [kw "end", kw "if", .nl]
+  | .repeatWhile c b => kw "repeat" :: kw "while" :: wCond c ++ .nl :: prSsW b ++ [kw "end", kw "repeat", .nl]
+  | .repeatWith v a b down body =>
+    kw "repeat" :: kw "with" :: prE v ++ .p .eq :: prE a ++ (if down then [kw "down", kw "to"] else [kw "to"]) ++ prE b ++ .nl :: prSsW body
+      ++ [kw "end", kw "repeat", .nl]
+  | .repeatIn v l body => kw "repeat" :: kw "with" :: prE v ++ kw "in" :: prE l ++ .nl :: prSsW body ++ [kw "end", kw "repeat", .nl]
+  | .exitRepeat => [kw "exit", kw "repeat", .nl]
+def prSsW : List Spec.Stmt → List Spec.Tok
+  | [] => []
+  | s :: ss => prSW s ++ prSsW ss
+end
 
 def dGlobalLines (gl : List Spec.Name) : List Spec.Tok :=
   gl.flatMap (fun g => [Spec.kw "global", .id g, .nl]) ++ (if gl.isEmpty then [] else [.nl])
 
 def dHandler (s : Spec.Script) (h : Spec.Handler) : List Spec.Tok :=
-  Spec.kw "on" :: .id h.name :: Spec.prNames h.params ++ [.nl] ++ dGlobalLines (hGlobalsSorted s h) ++ Spec.prSs h.body ++ [Spec.kw "end", .nl]
+  Spec.kw "on" :: .id h.name :: Spec.prNames h.params ++ [.nl] ++ dGlobalLines (hGlobalsSorted s h) ++ prSsW h.body ++ [Spec.kw "end", .nl]
 
 def dHandlers (s : Spec.Script) : List Spec.Handler → Bool → List Spec.Tok
   | [], _ => []
